@@ -426,3 +426,23 @@ func verifH_C01_null_elements() {
 	}
 	verifReach("end")
 }
+
+//verif:harness id=C01 tier=quick,thorough witness=end bounds="S-utf8: string value of 1-3 arbitrary bytes forming valid UTF-8 (1-3 characters of 1-3 bytes each) against minLength / maxLength (all uint64): length is counted in characters, not bytes"
+func verifH_C01_string_utf8() {
+	v := verifNondetString("v", 3)
+	verifAssume(len(v) > 0)
+	valid, runes := verifNaiveValidUTF8(v)
+	verifAssume(valid)
+	s := &Schema{Type: &Types{"string"}}
+	if verifChoose("hasMin", 2) == 1 {
+		s.MinLength = verifNondetUint64("minLength")
+	}
+	if verifChoose("hasMax", 2) == 1 {
+		m := verifNondetUint64("maxLength")
+		s.MaxLength = &m
+	}
+	err := verifVisit(s, v, 0)
+	want := uint64(runes) >= s.MinLength && (s.MaxLength == nil || uint64(runes) <= *s.MaxLength)
+	verifAssert((err == nil) == want, "C01 string length: accepted iff the number of characters is within minLength..maxLength")
+	verifReach("end")
+}
